@@ -69,7 +69,9 @@ GetClauses(P, e, Q) ==
     \* C19: a rejected entry is re-fetched rather than served
     <<"RejectedRefetched", ok => \A k \in e.rejected \cap P.entries : k \in e.contacted \/ k \notin ps>>,
     \* C19: a failed fetch is not registered and leaves no incomplete file under its cache name
-    <<"FailedNotRegistered", \A k \in e.failed : k \notin Q.entries /\ Q.files[k].st \in {"none", "good"}>>,
+    \* (a file that was already there, unregistered, and that the call left untouched is not the call's doing)
+    <<"FailedNotRegistered", \A k \in e.failed : k \notin Q.entries /\
+          (Q.files[k].st \in {"none", "good"} \/ (k \notin P.entries /\ Q.files[k].st = P.files[k].st))>>,
     <<"ReturnedAreEntries", ok => ps \subseteq Q.entries>>,
     \* C19: all other cached URIs remain intact (unless legitimately evicted by a successful request)
     <<"OthersIntact", \A k \in others \cap P.entries :
